@@ -4,7 +4,7 @@ import scaledrive
 
 SCALED = ["C17_Mdiff", "C17_Mconv", "C17_Mup", "C17_Mupalt", "C17_Msrc", "C17_Rsrc", "C17_Mbc", "C17_Rbc",
           "C17_ghost", "C17_divu", "C17_volume", "C17_linmean", "C17_upmean", "C17_grad", "C17_tvd"]
-LINEAR = ["C17_LinearDiff", "C17_LinearConv", "C17_LinearUp", "C17_LinearSrc"]
+LINEAR = ["C17_LinearDiff", "C17_LinearConv", "C17_LinearUp", "C17_LinearSrc", "C17_LinearTvd"]
 for c in SCALED + LINEAR + ["C17_solution", "C17_Decades"]:
     opscheck.NEEDS[c] = []
 
